@@ -1,7 +1,3 @@
-#[cfg(feature = "verif")]
-#[allow(unused_imports)]
-use qbice_verif_rt::{std};
-
 use std::{
     any::TypeId,
     hash::Hash,
